@@ -449,7 +449,15 @@ static void run_script(Session &ss, Src &s, bool literal, unsigned max_steps) {
     ss.finish();
 }
 
+static void name_sweep_case(size_t L, unsigned variant);
+
 static void run_case(Src &s) {
+    if (s.left() >= 6 && s.p[s.i] == 0xA6) {  // literal name-sweep case written by the enumerator
+        uint32_t l32;
+        memcpy(&l32, s.p + s.i + 2, 4);
+        name_sweep_case(l32 % 70001, s.p[s.i + 1]);
+        return;
+    }
     DocCase c;
     bool literal;
     size_t start = s.i;
@@ -505,6 +513,12 @@ static void run_case(Src &s) {
 }
 
 static void describe_case(Src &s, FILE *out) {
+    if (s.left() >= 6 && s.p[s.i] == 0xA6) {
+        uint32_t l32;
+        memcpy(&l32, s.p + s.i + 2, 4);
+        fprintf(out, "  name-sweep case: name length %u, variant %u\n", l32, s.p[s.i + 1] % 3);
+        return;
+    }
     DocCase c;
     bool literal;
     decode_case(s, c, literal);
@@ -549,6 +563,104 @@ static uint64_t joint_key(const Joint &j) {
     h = mix(h, j.cur.done);
     h = mix(h, (uint64_t)(uintptr_t)j.cur.cur);
     return h;
+}
+
+
+// ---------------------------------------------------------------------------
+// Deterministic sweep over field-name lengths (0..300, around 2^15 and 2^16, 70000): lookups that miss just before,
+// hit, and miss just after a name of every swept length, with an un-entered container as its value, then next / get_raw /
+// leave; every call compared with the reference cursor.  A failing (length, variant) is saved as a literal case A6.
+static void name_sweep_case(size_t L, unsigned variant) {
+    Value root;
+    root.k = K_OBJ;
+    auto field = [&](Bytes nm, Value v) { v.has_name = true; v.name = nm; root.c.push_back(v); };
+    Value one; one.k = ref::K_INT; one.i = 1;
+    Value obj; obj.k = K_OBJ; { Value q = one; q.has_name = true; q.name = Bytes{'q'}; obj.c.push_back(q); }
+    Value arr; arr.k = K_ARR; arr.c.push_back(one); arr.c.push_back(obj);
+    Bytes K(L, (uint8_t)'k');
+    switch (variant % 3) {
+    case 0: field(Bytes{'a'}, one); field(K, obj); field(Bytes{'z', 'z'}, one); break;
+    case 1: { field(Bytes{'a'}, arr); field(K, arr); Bytes kx = K; kx.push_back('x'); field(kx, one); break; }
+    default: field(Bytes{'a'}, obj); field(K, one); break;
+    }
+    std::sort(root.c.begin(), root.c.end(), [](const Value &a, const Value &b) { return ref::cmp_bytes(a.name, b.name) < 0; });
+    for (size_t i = 0; i + 1 < root.c.size(); i++) if (root.c[i].name == root.c[i + 1].name) return;  // L collides with a fixed name
+    Bytes doc = ref::encode(root);
+    ref::Rec rec = ref::recognise(doc.data(), doc.size(), false, 3, true);
+    if (!rec.ok) VH_FAIL("harness/name-sweep-doc", "sweep document for L=%zu is not valid", L);
+    std::vector<Bytes> probes;
+    if (L) probes.push_back(Bytes(L - 1, (uint8_t)'k'));          // strict prefix: misses just before K (or hits nothing)
+    probes.push_back(K);                                          // hit
+    { Bytes t = K; t.push_back(0x00); probes.push_back(t); }      // extension: misses just after K
+    probes.push_back(Bytes{'b'});                                 // sorts between "a" and K (for L >= 1)
+    for (size_t pi = 0; pi < probes.size(); pi++) {
+        for (int second = 0; second < 2; second++) {
+            Session ss(doc, &rec.root, false, 3, true);
+            binson_parser *p = ss.pb.p;
+            if (!ss.pb.init(false)) VH_FAIL(std::string(prop()) + "/sweep/init", "init failed L=%zu", L);
+            auto fail = [&](const char *what) {
+                throw Failure{std::string(prop()) + "/name-sweep/" + what, fmt("name length %zu variant %u probe %zu: %s", L, variant % 3, pi, what)};
+            };
+            if (!binson_parser_go_into_object(p)) fail("enter");
+            ss.cur.enter();
+            if (second) {  // first stop on the first field (whose value may be an un-entered container), then look up
+                bool e = ss.cur.next(), r = binson_parser_next(p);
+                if (e != r) fail("next-before-lookup");
+                if (r) ss.check_current("name-sweep");
+            }
+            bool e = ss.cur.field(probes[pi]);
+            bool r = binson_parser_field_with_length(p, (const char *)probes[pi].data(), probes[pi].size());
+            if (e != r) fail(r ? "lookup-false-hit" : "lookup-false-miss");
+            if (p->error_flags != BINSON_ERROR_NONE) fail("error-after-lookup");
+            if (r) {
+                ss.check_current("name-sweep");
+                if (ss.cur.pending()) {
+                    const Value *pend = ss.cur.pending();
+                    bbuf raw;
+                    if (!binson_parser_get_raw(p, &raw)) fail("get_raw");
+                    if (raw.bptr != ss.pb.input.p + pend->tb || raw.bsize != pend->te - pend->tb) fail("raw-span");
+                    ss.cur.raw();
+                }
+            }
+            // second lookup of the same probe, then walk the rest
+            e = ss.cur.field(probes[pi]);
+            r = binson_parser_field_with_length(p, (const char *)probes[pi].data(), probes[pi].size());
+            if (e != r) fail("second-lookup");
+            for (int k = 0; k < 5; k++) {
+                bool e2 = ss.cur.next(), r2 = binson_parser_next(p);
+                if (e2 != r2) fail(r2 ? "next-extra" : "next-lost-field");
+                if (p->error_flags != BINSON_ERROR_NONE) fail("error-after-next");
+                if (r2) ss.check_current("name-sweep");
+            }
+            if (!binson_parser_leave_object(p)) fail("leave");
+            if (p->error_flags != BINSON_ERROR_NONE) fail("error-at-end");
+        }
+    }
+}
+
+static void name_sweep(int shard, int nshards, bool thorough) {
+    std::vector<size_t> Ls;
+    auto range = [&](size_t a, size_t b) { for (size_t l = a; l <= b; l++) Ls.push_back(l); };
+    if (thorough) { range(0, 2000); range(32000, 33600); range(65000, 66200); range(69990, 70000); }
+    else { range(0, 300); range(32700, 32800); range(65500, 65600); Ls.push_back(70000); }
+    Stats &st = stats();
+    for (size_t i = 0; i < Ls.size(); i++) {
+        if ((int)(i % (size_t)nshards) != shard) continue;
+        for (unsigned v = 0; v < 3; v++) {
+            try {
+                name_sweep_case(Ls[i], v);
+            } catch (const Failure &) {
+                uint8_t cs[6] = {0xA6, (uint8_t)v};
+                uint32_t l32 = (uint32_t)Ls[i];
+                memcpy(cs + 2, &l32, 4);
+                vh_save_fail_case(cs, 6);
+                throw;
+            }
+            st.evaluations++;
+            st.count("enum_name_sweep_cases");
+            st.nontrivial(mix(0xA6A6, Ls[i] * 4 + v));
+        }
+    }
 }
 
 #define VH_HAS_ENUM
@@ -637,6 +749,7 @@ static int enumerate(int shard, int nshards, const char *tier) {
         }
         states += all.size();
     }
+    name_sweep(shard, nshards, tier && !strcmp(tier, "thorough"));
     st.counters["enum_joint_states"] += states;
     st.counters["enum_transitions"] += transitions;
     st.counters["enum_max_nodes"] = N;
